@@ -191,8 +191,8 @@ enum Dead {
 /// C17: a scheduler-based operator that is subscribed with a subscriber that has already ended
 /// (the other input of a combining operator ended the stream synchronously) - everything it owns
 /// is released all the same once the handles are gone
-fn dead_release_scn(k: Sched, how: Dead, q: Option<u32>, t: Option<u32>) -> Scn {
-  let name = format!("c17/{:?} subscribed with a subscriber that has already ended ({:?}), then silence", k, how);
+fn dead_release_scn(prefix: &str, k: Sched, how: Dead, q: Option<u32>, t: Option<u32>) -> Scn {
+  let name = format!("{}/{:?} subscribed with a subscriber that has already ended ({:?}), then silence", prefix, k, how);
   scn(&name, "release-of-a-dead-subscription", q, t, move || {
     let rec = Rec::new();
     let owners: Arc<Mutex<Vec<(String, usize)>>> = Arc::new(Mutex::new(vec![]));
@@ -266,7 +266,21 @@ pub fn release_scenarios() -> Vec<Scn> {
   for k in [Sched::SubscribeOn, Sched::ObserveOn, Sched::Debounce] {
     for how in [Dead::MergeAfterError, Dead::TakeUntilJust, Dead::AmbAfterJust] {
       let quick = how == Dead::MergeAfterError || k == Sched::SubscribeOn;
-      v.push(dead_release_scn(k, how, if quick { Some(1) } else { None }, Some(2)));
+      v.push(dead_release_scn("c17", k, how, if quick { Some(1) } else { None }, Some(2)));
+    }
+  }
+  v
+}
+
+/// C15's reading of the same situations (seed C15-l: `subscribe_on` returned early for a subscriber that
+/// had already ended - after its scheduler, and with it the worker thread, had been made): whatever
+/// thread a scheduler-based operator started for a subscriber that was dead on arrival comes to rest
+pub fn dead_worker_scenarios() -> Vec<Scn> {
+  let mut v = vec![];
+  for k in [Sched::SubscribeOn, Sched::ObserveOn, Sched::Debounce] {
+    for how in [Dead::MergeAfterError, Dead::TakeUntilJust, Dead::AmbAfterJust] {
+      let quick = how == Dead::MergeAfterError || k == Sched::SubscribeOn;
+      v.push(dead_release_scn("c15", k, how, if quick { Some(1) } else { None }, Some(2)));
     }
   }
   v
